@@ -2,16 +2,16 @@ SPECIFICATION Spec
 CONSTANTS
   Pre = 0
   NSamples = 2
-  FragSNs = {1}
+  FragSNs = {2}
   NF = 2
-  MaxFaults = 3
+  MaxFaults = 2
   K = 3
-  MaxRounds = 6
+  MaxRounds = 5
   MaxRematch = 0
   Win = 256
   Bursts = {}
   OutageAt = 0
-  KeySNs = {}
+  KeySNs = {1, 2}
   GenK = 3
 VIEW View
 INVARIANT Inv_Converge
